@@ -14,8 +14,21 @@ cp /verif/known_findings.txt "$S/verif/"
 ( cd "$S/repo" && git init -q . 2>/dev/null && git apply --whitespace=nowarn "$patch" ) || { echo "PATCH DOES NOT APPLY: $patch"; exit 2; }
 ( cd "$S/repo" && GOFLAGS=-mod=readonly GOPROXY=off GOSUMDB=off GOTOOLCHAIN=local go build ./... ) || { echo "MUTANT DOES NOT COMPILE"; exit 2; }
 hit=1
+Q=${QICHECK:-/verif/bin/qicheck}
+if [ $# -gt 4 ] && [ "${TIER:-quick}" = quick ]; then
+  # many properties: one load, every property in turn (dev-time mode of qicheck)
+  out=$($Q -property all -repo "$S/repo" -verif "$S/verif" 2>&1)
+  for p in "$@"; do
+    seg=$(echo "$out" | awk -v P="$p" '/^qicheck property=/{cur=$2; sub("property=","",cur)} cur==P{print}')
+    echo "$seg" | grep -E "^(VIOLATION|UNDECIDED) " | grep -v "^VIOLATION property=" | sed "s|$S/repo/||g" | cut -c1-400
+    if echo "$seg" | grep -q "^VIOLATION property="; then hit=0; echo "== $p: CAUGHT"; else
+      if echo "$seg" | grep -q "^summary:"; then echo "== $p: silent"; else hit=0; echo "== $p: CAUGHT (no report: analyser failed)"; echo "$out" | tail -5; fi
+    fi
+  done
+  exit $hit
+fi
 for p in "$@"; do
-  out=$(${QICHECK:-/verif/bin/qicheck} -property "$p" -tier "${TIER:-quick}" -repo "$S/repo" -verif "$S/verif" 2>&1)
+  out=$($Q -property "$p" -tier "${TIER:-quick}" -repo "$S/repo" -verif "$S/verif" 2>&1)
   echo "$out" | grep -E "^(VIOLATION|UNDECIDED) " | grep -v "^VIOLATION property=" | sed "s|$S/repo/||g" | cut -c1-400
   if echo "$out" | grep -q "^VIOLATION property="; then hit=0; echo "== $p: CAUGHT"; else echo "== $p: silent"; fi
 done
